@@ -67,7 +67,7 @@ func matrixTemplates() []matrixCfg {
 	}
 	t = append(t,
 		matrixCfg{SrvMode: "none", SrvCert: "othername", Cli: cliTLS{Enable: true, TrustCA: true, ServerName: otherName}}, // control: that certificate is valid for its own name
-		matrixCfg{SrvMode: "none", SrvCert: "random", Cli: cliTLS{Enable: false}},                                          // control: plaintext is fine when nothing forces TLS
+		matrixCfg{SrvMode: "none", SrvCert: "random", Cli: cliTLS{Enable: false}},                                         // control: plaintext is fine when nothing forces TLS
 		matrixCfg{SrvMode: "ca", SrvCert: "good", Cli: cliTLS{Enable: true, Cert: "good", TrustCA: true, ServerName: goodName}},
 		matrixCfg{SrvMode: "ca", SrvCert: "otherca", Cli: cliTLS{Enable: true, Cert: "good", TrustCA: true}},
 	)
